@@ -232,6 +232,16 @@ class Prop(core.Prop):
                 got = [rtime.tuple_of(t) for t in f.getTimes()]
             except Exception as e:
                 return result('raised', [], st, 1, None, h64(type(e).__name__))
+            # decoding is a query: a second call on the same object must decode the same instants
+            try:
+                again = [rtime.tuple_of(t) for t in f.getTimes()]
+            except Exception as e:
+                again = repr(e)
+            if again != got:
+                k = next((i for i in range(len(got)) if isinstance(again, str) or again[i] != got[i]), 0)
+                vs.append(viol('second-call-differs', ('getTimes', 'TFLAG'),
+                               'first call %r, second call on the same file %r' % (
+                                   got[k], again if isinstance(again, str) else again[k]), **scope))
             bad = [(int(d), g, w) for d, g, w in zip(dates, got, want) if g != w]
             if bad or len(got) != len(want):
                 vs.append(viol('instant-differs', ('getTimes', 'TFLAG'),
@@ -297,6 +307,10 @@ class Prop(core.Prop):
             got = [rtime.tuple_of(t) for t in f.getTimes()]
             if got != want:
                 vs.append(viol('instant-differs', sig, 'getTimes %r expected %r' % (got, want), **scope))
+            again = [rtime.tuple_of(t) for t in f.getTimes()]
+            if again != got:
+                vs.append(viol('second-call-differs', sig, 'first call %r, second call on the same file %r'
+                               % (got, again), **scope))
             if form.startswith('cf'):
                 gb = [rtime.tuple_of(t) for t in f.getTimes(bounds=True)]
                 wb = want + [rtime.tuple_of(rtime.ioapi_times(sdate, stime, ts, nt + 1)[-1])]
